@@ -44,7 +44,7 @@ ASSUMPTIONS = [
     "leftovers of an interrupted update (temp files, checkpoints not yet cleaned) are counted, not asserted",
 ]
 BUDGET = {
-    "quick": dict(cases=16, shards=4, timeout=600),
+    "quick": dict(cases=12, shards=4, timeout=600),
     "thorough": dict(cases=60, shards=16, timeout=3000, time=400),
 }
 CLASSES = ["keep2_default", "keepall_noepoch", "keepall_default", "keep2_noepoch", "keep2_custom",
